@@ -45,9 +45,13 @@ def check(run, M, tier):
     run.rule("N3b", "toeplitz_psf (anchor sigpy/fourier.py:219-263) evaluates nufft_adjoint(nufft(delta)) on the 2x grid of the *whole* input shape with one "
                     "(new_coord, oversamp, width), then the unnormalised FFT over the last ndim axes times 2^ndim (same comparison as C06/U4)")
     run.rule("N4", "no Linop class defines __iadd__/__imul__, so `AHA += ...` in the apps rebinds instead of mutating the cached A.N")
-    from .c06 import REF_PSF, _cmp
+    from .c06 import REF_PSF, _cmp, psf_instances_equal
     from ..linopdesc import havoc_loop as _hl
-    _cmp(run, M, "N3b", "sigpy.fourier.toeplitz_psf", REF_PSF, loop_hook=_hl)
+    if psf_instances_equal(M):
+        run.ok("N3b", "sigpy.fourier.toeplitz_psf", "equals the documented pipeline for every rank instance (1-3 transform dimensions, 0-2 batch axes, symbolic sizes)",
+               M.func("sigpy.fourier.toeplitz_psf").loc())
+    else:
+        _cmp(run, M, "N3b", "sigpy.fourier.toeplitz_psf", REF_PSF, loop_hook=_hl)
     alg = LinAlg(M)
     base = M.cls("sigpy.linop.Linop")
 
